@@ -7,7 +7,7 @@ from lib import common, gen, apicases
 from lib.cases import Rng, get_resp, done_resp, ping_resp, le, ev_data
 from lib.common import Broken
 
-THEOREMS = ["C20_output", "C20_silent_during_connect", "C20_silent_after_connect"]
+THEOREMS = ["C20_output", "C20_silent_during_connect", "C20_silent_after_connect", "C20_fixed6_value", "C20_fixed6_rounding"]
 VECLI = os.path.join(common.BUILD, "vecli")
 
 
@@ -139,7 +139,11 @@ def compare_with_model(res, dev, regs, cli_lines, model_tokens, what, flnames={}
             num, den = tok[1:].split("#")[0].split("/")
             q = int(num) / int(den)
             mm = re.match(r"^(-?\d+\.\d{6}|NaN|[+-]Inf)", val)
-            good = bool(mm) and mm.group(1) not in ("NaN", "+Inf", "-Inf") and abs(float(mm.group(1)) - q) <= 5e-7 + 1e-9 * max(1, abs(q))
+            if "%" in tok:
+                # exact: the model's binary64 value rounded half-even to six decimals (Api/Fixed.v)
+                good = bool(mm) and mm.group(1) == tok.split("%", 1)[1]
+            else:
+                good = bool(mm) and mm.group(1) not in ("NaN", "+Inf", "-Inf") and abs(float(mm.group(1)) - q) <= 5e-7 + 1e-9 * max(1, abs(q))
         elif k == 2:
             good = val.encode("utf8", "replace") == bytes.fromhex(tok[1:]) or val == bytes.fromhex(tok[1:]).decode("utf8", "replace")
         elif k == 3:
@@ -169,7 +173,7 @@ def compare_with_model(res, dev, regs, cli_lines, model_tokens, what, flnames={}
 
 def run(res, args):
     res.assumptions = ["the serial line discipline, the 200 ms read timeout of tarm/serial, the kernel's pty and process exit are runtime behaviour: exercised, not proved",
-                       "printed numbers (%f, six decimals) are parsed back and compared with the model's exact rational within 5e-7 + 1e-9*max(1,|q|)",
+                       "printed numbers (%f, six decimals) are compared as strings with the model's binary64 value rounded half-even to six decimals (Api/Float.v, Api/Fixed.v); the unit text after the number is not compared",
                        "the order of lines with equal sort keys is unspecified (map iteration before a stable sort)"]
     common.build_harness()
     gen.regenerate_all()
